@@ -1,5 +1,6 @@
 // C17 — the exported cloud key contains only public evaluation material.
 #include "vf.hpp"
+#include <map>
 #include <tfhe.h>
 #include <tfhe_io.h>
 #include <tfhe_generic_streams.h>
@@ -69,8 +70,11 @@ static void audit(const std::string &key, const PSet &P, TFheGateBootstrappingPa
             if (e == std::string::npos || cloud.compare(pset.size(), 27, "-----BEGIN LWEKSPARAMS-----")) { violation(key, "no key-switch parameter section after the parameter set"); return; }
             size_t kssec = e + endks.size() - pset.size();
             std::string sec = cloud.substr(pset.size(), kssec);
-            char exp[256]; snprintf(exp, sizeof exp, "-----BEGIN LWEKSPARAMS-----\nbasebit: %10d\nn: %10d\nt: %10d\n-----END LWEKSPARAMS-----\n", bb, kk * N, t);
-            if (sec != exp) { violation(key, "key-switch parameter section is not the three public integers (basebit, n=kN, t): " + sec.substr(0, 120)); return; }
+            // the section must carry exactly the three public integers (basebit, n = kN, t) - whatever the spacing of the text format
+            { std::map<std::string, long> kv; std::vector<std::string> lines; size_t q = 0; while (q < sec.size()) { size_t nl = sec.find('\n', q); if (nl == std::string::npos) nl = sec.size(); lines.push_back(sec.substr(q, nl - q)); q = nl + 1; }
+              bool okfmt = lines.size() == 5 && lines[0] == "-----BEGIN LWEKSPARAMS-----" && lines[4] == "-----END LWEKSPARAMS-----";
+              for (size_t i = 1; okfmt && i + 1 < lines.size(); i++) { size_t c = lines[i].find(": "); if (c == std::string::npos) { okfmt = false; break; } char *endp = nullptr; std::string val = lines[i].substr(c + 2); long v = strtol(val.c_str(), &endp, 10); while (endp && *endp == ' ') endp++; if (!endp || *endp) okfmt = false; kv[lines[i].substr(0, c)] = v; }
+              if (!okfmt || kv.size() != 3 || kv["basebit"] != bb || kv["n"] != (long)kk * N || kv["t"] != t) { violation(key, "key-switch parameter section is not the three public integers (basebit, n=kN, t): " + sec.substr(0, 120)); return; } }
             uint64_t want = pset.size() + kssec + (4 + 8) + (uint64_t)kk * N * t * (1u << bb) * (n + 1) * 4 + (4 + 8) + (uint64_t)n * (kk + 1) * l * (kk + 1) * N * 4;
             if (cloud.size() != want) { violation(key, fmt("cloud export has %zu bytes, the parameters determine %llu", cloud.size(), (unsigned long long)want)); return; }
             // (2) strict prefix of the secret export; remainder = exactly the two key sections
